@@ -223,7 +223,11 @@ def find_between(text, start_pat, end_pat, masked=None):
     """A fragment: from the first line matching start_pat up to and including the first later line
     matching end_pat. Both patterns must match exactly once / at least once after start."""
     lines = text.split('\n')
-    s = [i for i, l in enumerate(lines) if re.search(start_pat, l)]
+    if '\\n' in start_pat:
+        # a start pattern spanning several lines (the first line alone is ambiguous): matched against the whole text
+        s = [text.count('\n', 0, mo.start()) for mo in re.finditer(start_pat, text, re.M)]
+    else:
+        s = [i for i, l in enumerate(lines) if re.search(start_pat, l)]
     if len(s) != 1:
         raise SliceError('fragment start /%s/ matched %d lines' % (start_pat, len(s)))
     e = [i for i, l in enumerate(lines) if i >= s[0] and re.search(end_pat, l)]
